@@ -49,6 +49,9 @@ def handlers : List (String × Handler) := [
       | .ok fs => encList ';' (fs.map encFields)
       | .error e => encErr e
     | _ => str "bad-op"),
+  ("pqr.fits", fun a => match a with
+    | [kc, atom] => encBool (Fits (decAtom atom)) ++ encBool (FitsWs (decBool kc) (decAtom atom))
+    | _ => str "bad-op"),
   ("pqr.fields", fun a => match a with
     | [kc, atom] => encFields (fieldsOf (decBool kc) (decAtom atom))
     | _ => str "bad-op")
